@@ -144,6 +144,9 @@ def compare_inc_fresh(inc, fr):
         if a != b:
             divs.append(("inc-vs-rebuild:" + k, "%s: incremental %s, rebuild %s" % (k, json.dumps(a, sort_keys=True)[:300], json.dumps(b, sort_keys=True)[:300])))
     ta, tb = inc.get("templates") or {}, fr.get("templates") or {}
+    if sorted(ta) == sorted(tb) and ta != tb:
+        diff = sorted(p for p in ta if ta[p] != tb[p])
+        divs.append(("inc-vs-rebuild:template-differs", "payee templates of %s: incremental %s, rebuild %s" % (diff[:3], [ta[p] for p in diff[:2]], [tb[p] for p in diff[:2]])))
     if sorted(ta) != sorted(tb):
         lost = sorted(set(tb) - set(ta))
         extra = sorted(set(ta) - set(tb))
@@ -227,7 +230,7 @@ def main(args):
     run.rule = ("one case per update history generated by TLC from Workspace.tla (exhaustive: every initial 3-file workspace over a small pool x every single update; "
                 "-simulate: histories of 8..12 updates on 3..4 files over include/transaction/declaration menus incl. cycles, a missing target, files becoming "
                 "unreachable and reachable again); non-trivial = at least one update whose new content has an include directive; distinct by history")
-    run.assumptions = ["every update is also written to disk (as a save would) before UpdateFile", "which member file's payee template wins is left open (set of offers)",
+    run.assumptions = ["every update is also written to disk (as a save would) before UpdateFile", "which member file's payee template wins is left open in the CONTRACT (set of offers); the updated workspace and the rebuilt one must agree on it",
                        "order inside the transaction index is ignored"]
     run.finish(confirm=lambda d: confirm(run, d))
 
